@@ -11,6 +11,15 @@ def run(ctx):
         scale = driver.run_scaled(ctx, b, "TestVerifC09", 16, 3000, "c09")
     return driver.finish(
         ctx, "exploration",
+        "COLLIDING DOMAINS: tunnel domains DERIVED FROM THE REQUEST'S OWN NAME, for every domain length 1..176 and upstream codec: the domain is "
+        "one label equal to the last label of the data part of the very name the client forms (x), that label twice or three times (periodic "
+        "domains x.x, x.x.x), x.net, net.x, one label of 57 characters equal to a full inner label of the data part, or one label equal to the last "
+        "characters of the last data label; each in the data's spelling, lower, upper and swapped case. Requests: data packets of every payload "
+        "length 0..getUpstreamMtu() whose name ends in such a label (random, keyed, 0x00, 0xff, counter content; for codecs whose alphabet has more "
+        "than letters and digits the last/inner label is steered to letters and digits), upstream-codec probes (the client's patterns and patterns of "
+        "letters and digits of every length that fits), and the short requests (version, options, ping, downstream-codec and fragment-size probes) "
+        "below a domain that is the tail of their single data label. Same path and same oracle as SEQUENTIAL; the harness counts the names that really "
+        "have the intended shape (colliding_names:<shape>). "
         "CONCURRENT USERS: per upstream codec 8 goroutines push 4000 (thorough 40000) numbered packet requests each through the whole path at the same time (the server handles every datagram on a goroutine of its own) and must each get back exactly what they sent (judged only if the same requests round-trip one at a time). CLIENT-BUILT: for every tunnel-domain length 4..200 the real client, connected to the real server in memory, sends what it builds by itself (version handshake, fragment-size probes with its own padding, the switch to each upstream codec, a write of exactly the upstream budget it computed for that codec): every request must be answered / delivered byte-exactly and every call must return. SEQUENTIAL: "
         "for each request type the client forms (version, options, packet with data, packet without data, upstream-codec probe "
         "with the patterns the client sends, downstream-codec probe, fragment-size probe) x upstream codec {Base32,64,64u,85,91,128} x "
@@ -26,6 +35,7 @@ def run(ctx):
          "SetOptions' fragment size 0xFFFFFFFF is the wire encoding of 'unset' by design and is not used as a value",
          "UseMultiQuery=false (the client never enables it); the server-side serializer carries the same upstream codec as the client",
          "nil and empty Packet.Data / Pattern are the same value (only the bytes are consumed by the server)",
+         "colliding-domains family: the upstream-codec probe also carries patterns of letters and digits the client itself never sends (the pattern is a free field of the request)",
          "upstream-codec probes are the patterns of Base128/91/85/64/64u prefixed with 'aA' exactly as EncodingTestUpstream sends them"],
         min_distinct=1 if ctx.replay else 2,
         extra_cov={"exhaustive": False,
